@@ -192,7 +192,13 @@ fn check_header(ctx: &mut Ctx, voice: &Voice, rv: &RefVoice, path: &Path) {
     if !bad.is_empty() {
         ctx.violation("header-field", J::obj().set("fields", J::from(bad)));
     }
-    // engine defaults
+    check_engine_defaults(ctx, rv, path);
+}
+
+/// The synthesis settings a fresh engine takes from the header (rate, frame period, ALPHA,
+/// GAMMA stage, LN_GAIN) equal the file's, and they are the values synthesis really uses.
+/// (Also the end-to-end leg of C13: stage selection from the GAMMA option.)
+pub fn check_engine_defaults(ctx: &mut Ctx, rv: &RefVoice, path: &Path) {
     match Engine::load(&[path]) {
         Ok(e) => {
             let c = &e.condition;
@@ -245,6 +251,7 @@ fn check_header(ctx: &mut Ctx, voice: &Voice, rv: &RefVoice, path: &Path) {
                 let again = crate::synth::rerender(&hp, &run);
                 ctx.count("effective_defaults_rendered", 1.0);
                 let finite = run.wave.iter().all(|x| x.is_finite());
+                ctx.count(if finite { "effective_defaults_compared" } else { "effective_defaults_non_finite_skipped" }, 1.0);
                 if finite && !crate::synth::bits_equal(&again, &run.wave) {
                     ctx.violation(
                         "synthesis-does-not-use-the-header-defaults",
@@ -330,7 +337,7 @@ pub fn run(ctx: &mut Ctx) {
         let hi = ((idx + 1) * per).min(env.corpus.labels.len());
         check_labels(ctx, &bundled_voice, &env.bundled_ref, 1, &env.corpus.labels[lo..hi]);
     });
-    let n = ctx.n(64, 500);
+    let n = ctx.n(64, 2000);
     ctx.run_cases("bundled-recombined", n, false, |ctx, rng, _| {
         let labels: Vec<Label> = (0..16).map(|_| env.corpus.recombine(rng)).collect();
         check_labels(ctx, &bundled_voice, &env.bundled_ref, 1, &labels);
@@ -339,7 +346,7 @@ pub fn run(ctx: &mut Ctx) {
         }
     });
 
-    let n = ctx.n(32, 600);
+    let n = ctx.n(32, 2000);
     ctx.run_cases("handed-to-synthesis", n, false, |ctx, rng, idx| {
         if idx % 4 == 0 {
             let mut bytes = env.bundled_bytes.clone();
@@ -386,7 +393,7 @@ pub fn run(ctx: &mut Ctx) {
         }
         ctx.nontrivial(mix(&[91, idx as u64]));
     });
-    let n = ctx.n(160, 2000);
+    let n = ctx.n(160, 8000);
     ctx.run_cases("synthetic", n, false, |ctx, rng, idx| {
         let mut o = VoiceOpts::random(rng);
         if idx % 4 == 0 {
